@@ -5,6 +5,7 @@
 From Coq Require Import NArith List Bool.
 Require Import Bytes AES Modes Snow3gTables Snow3g Security Snow3gSpec TS33401B.
 Require Import Snow3gBits Snow3gProofs SecAesLen SecProofs SecNia1.
+Require Import Concurrency Footprints AesStateless.
 Import ListNotations.
 Open Scope N_scope.
 
@@ -168,3 +169,9 @@ Example c07_nia1_hypotheses_met :
   key_ok k = true /\ bytes_ok k = true /\ bytes_ok m = true /\ m <> [] /\
   nas_mac 1 k 7 3 1 m = Some (eia1 k 7 3 1 m).
 Proof. cbv zeta. repeat split; try (vm_compute; reflexivity). discriminate. Qed.
+
+(* the AES-based algorithms keep nothing between calls: reflective over the footprints REGENERATED from the current source
+   (go/ssa: package-level variables written / read by everything statically reachable from NEA2 and NIA2) *)
+Theorem c07_aes_algorithms_keep_no_package_state : family_stateless footprints aes_family = true.
+Proof. exact nea2_nia2_keep_no_state. Qed.
+Print Assumptions c07_aes_algorithms_keep_no_package_state.
